@@ -430,11 +430,13 @@ func (r *yieldRewriter) rewriteSwitchStmt(
 	children *block,
 ) *block {
 	allCaseTrival := true
+	breakable := false // containing break referring to the switch
 	var cases []ast.Stmt
 	for _, it := range body.List {
 		// yield is not supported in case expr, but
 		// yield has no return, no need to assert
 		clause := it.(*ast.CaseClause)
+		breakable = breakable || hasBreakList(clause.Body)
 		caseBody := r.rewriteBlockStmt(X.Block(clause.Body...), kindSwitch)
 		cases = append(cases, X.Case(clause.List, caseBody.block.List))
 		allCaseTrival = allCaseTrival && caseBody.mustNoYield()
@@ -475,6 +477,17 @@ func (r *yieldRewriter) rewriteSwitchStmt(
 		X.Block(cases...),
 	)
 	children = r.combineIfNecessary(children)
+	if breakable {
+		// break following yield will be rewritten to Break() in bind callback (pass3),
+		// which should terminate the switch stmt instead of the enclosing loop
+		//	return Breakable(Delay(func() Seq[T] { switch { ... } return Normal() }))
+		delimited := mkBlock(kindDelay)
+		delimited.push(switchStmt, kindSwitch)
+		r.generateLastNormalIfNecessary(delimited)
+		callBreakable := r.SeqCall(cstBreakable, r.CallDelay(delimited.block))
+		children.pushReturn(callBreakable, kindYield)
+		return children
+	}
 	children.push(switchStmt, kindSwitch)
 	return children
 }
